@@ -261,8 +261,15 @@ class NakPdu(AbstractFileDirectiveBase):
             struct_arg_tuple = ("!I", 4)
         else:
             struct_arg_tuple = ("!Q", 8)
-        if current_idx + 2 * struct_arg_tuple[1] > len(data):
-            raise BytesTooShortError(current_idx + 2 * struct_arg_tuple[1], len(data))
+        # The segment requests end in front of the CRC trailer, if there is one
+        end_of_segment_requests = len(data)
+        if nak_pdu.pdu_file_directive.pdu_conf.crc_flag == CrcFlag.WITH_CRC:
+            end_of_segment_requests -= 2
+        if current_idx + 2 * struct_arg_tuple[1] > end_of_segment_requests:
+            raise BytesTooShortError(
+                current_idx + 2 * struct_arg_tuple[1] + len(data) - end_of_segment_requests,
+                len(data),
+            )
         nak_pdu.start_of_scope = struct.unpack(
             struct_arg_tuple[0],
             data[current_idx : current_idx + struct_arg_tuple[1]],
@@ -273,15 +280,17 @@ class NakPdu(AbstractFileDirectiveBase):
             data[current_idx : current_idx + struct_arg_tuple[1]],
         )[0]
         current_idx += struct_arg_tuple[1]
-        if current_idx < len(data):
-            packet_size_check = (len(data) - current_idx) % (struct_arg_tuple[1] * 2)
+        if current_idx < end_of_segment_requests:
+            packet_size_check = (end_of_segment_requests - current_idx) % (
+                struct_arg_tuple[1] * 2
+            )
             if packet_size_check != 0:
                 raise ValueError(
                     "Invalid size for remaining data, "
                     f"which should be a multiple of {struct_arg_tuple[1] * 2}"
                 )
             segment_requests = []
-            while current_idx < len(data):
+            while current_idx < end_of_segment_requests:
                 start_of_segment = struct.unpack(
                     struct_arg_tuple[0],
                     data[current_idx : current_idx + struct_arg_tuple[1]],
